@@ -3,7 +3,7 @@
    Model/Cable.v (assembly of the cable system of a cell; schemes).  The conductance
    formulas G*.X are regenerated from /repo on every run. *)
 From Coq Require Import Reals List.
-From JV Require Import Prim TreeSolve TreeSolveFacts Cable GCellUtils CableFacts HinesArr HinesCheck HinesArrFacts.
+From JV Require Import Prim TreeSolve TreeSolveFacts Cable GCellUtils CableFacts HinesArr HinesCheck HinesArrFacts HinesIdx HinesTreeFacts HinesIdxFacts.
 Import ListNotations.
 Local Open Scope R_scope.
 
@@ -104,3 +104,38 @@ Example C01_array_checker_rejects :
             [0; 2; 5; 8]%nat [2; 3; 3; 2]%nat [2; 1; 3; 2]%nat
             [([(1, 0); (2, 0)], [(0, 0)]); ([(3, 1)], [])]%nat [0]%nat = false.
 Proof. vm_compute. split; reflexivity. Qed.
+
+(* ---- every cell.  Model/HinesIdx.v computes, from a parent vector and the compartment counts,
+   the index structure jaxley builds (levels, children / parents per level, per-level padding,
+   padded cumulative counts, branch-point numbering); it is compared EXACTLY with the running
+   code's JaxleySolveIndexer on every sampled cell.  For EVERY sorted parent vector and all
+   counts >= 1 the schedule checker accepts it (axiom-free, by induction over the levels) ... *)
+Theorem C01_checker_accepts_every_cell : forall ps ns : list nat,
+  (1 <= length ps)%nat -> (forall b, (1 <= b)%nat -> (b < length ps)%nat -> (nth b ps 0 < b)%nat) ->
+  (forall b, (b < length ps)%nat -> (1 <= nth b ns 0)%nat) ->
+  check_schedule (layout_of ps ns) (topo_of ps) (ops_of_tree ps ns) = true.
+Proof. exact tree_accepted. Qed.
+
+(* ... hence, for EVERY cell and ALL contents of the arrays, the level-ordered, padded
+   triangulation and back-substitution of solver_voltage.py returns the unique solution of
+   the system the arrays represent (no per-instance check left; the only hypotheses are that
+   no operation divides by zero) *)
+Theorem C01_array_solver_correct_for_every_cell : forall (ps ns : list nat) (s0 : store R),
+  (1 <= length ps)%nat -> (forall b, (1 <= b)%nat -> (b < length ps)%nat -> (nth b ps 0 < b)%nat) ->
+  (forall b, (b < length ps)%nat -> (1 <= nth b ns 0)%nat) ->
+  let ly := layout_of ps ns in let tp := topo_of ps in let ops := ops_of_tree ps ns in
+  Forall (fun d => d <> 0) (divisors R Rplus Rminus Rmult Rdiv 0 1 ly ops s0) ->
+  (forall j, (j < nbp tp)%nat -> bd (run R Rplus Rminus Rmult Rdiv 0 1 ly ops s0) j <> 0) ->
+  let out := sv (run R Rplus Rminus Rmult Rdiv 0 1 ly ops s0) in
+  (exists y, sat ly tp s0 out y) /\
+  (forall x y, sat ly tp s0 x y ->
+     forall b k, (b < length ps)%nat -> (k < pl ly b)%nat -> x (cs ly b + k)%nat = out (cs ly b + k)%nat).
+Proof.
+  intros ps ns s0 H1 H2 H3 ly tp ops D B. apply (arr_solve_correct ly tp ops s0); [apply tree_accepted; assumption | exact D | exact B].
+Qed.
+
+(* non-vacuity: the index structure of the cell parents [-1,0,0,1], compartments [2,1,3,2] *)
+Example C01_idx_example :
+  idx_summary [0; 0; 0; 1]%nat [2; 1; 3; 2]%nat
+  = ([0; 2; 5; 8; 10]%nat, ([2; 3; 3; 2]%nat, [([(1, 0); (2, 0)], [(0, 0)]); ([(3, 1)], [(1, 1)])]%nat)).
+Proof. vm_compute. reflexivity. Qed.
